@@ -429,6 +429,74 @@ def description_report_faults(mod1: int, mod2: int, mv0: int, mv1: int, mv2: int
     return orc.result()
 
 
+def description_report_rekeys(mod: int, which: int, newkey: int, mv0: int, mv1: int, dv0: int, dv1: int) -> str:
+    """
+    One DescriptionModificationReport part (0 CREATE - a duplicate, or the DELETE before it was lost -, 1 UPDATE) for an alert
+    descriptor the consumer ALREADY has (which 0: AlertSignal asig0, 1: AlertCondition ac0), arriving with another value of the
+    attribute the tables index it by (ConditionSignaled / Source; newkey 0 same, 1 other, 2 none), any MdibVersion and
+    DescriptorVersion: afterwards every index of the consumer tables equals a scan over the stored objects, and a report that is
+    applied leaves the descriptor with the reported attribute.
+    pre: 0 <= mod <= 1
+    pre: 0 <= which <= 1
+    pre: 0 <= newkey <= 2
+    pre: mv0 >= 0
+    pre: mv1 >= 0
+    pre: dv0 >= 0
+    pre: dv1 >= 0
+    post: __return__ == 'ok'
+    """
+    orc = Oracle()
+    try:
+        from sdc11073.mdib import descriptorcontainers as dc
+        mod, which, newkey = pick(mod, (0, 1)), pick(which, (0, 1)), pick(newkey, (0, 1, 2))
+        cm = k.mk_consumer(mv0, alerts=True, contexts=False)
+        dmt = msg_types.DescriptionModificationType
+        handle = 'asig0' if which == 0 else 'ac0'
+        with untraced():
+            old = cm.descriptions.handle.get_one(handle)
+            st0 = cm.states.descriptor_handle.get_one(handle, allow_none=True)
+        old.DescriptorVersion = dv0
+        if st0 is not None:
+            st0.DescriptorVersion = dv0
+        rep = msg_types.DescriptionModificationReport()
+        rep.set_mdib_version_group(MdibVersionGroup(mv1, k.SEQ, 1))
+        part = rep.add_report_part()
+        part.SourceMds = 'mds0'
+        part.ParentDescriptor = 'as0'
+        if which == 0:
+            d = dc.AlertSignalDescriptorContainer(handle, 'as0')
+            d.ConditionSignaled = ('ac0', 'ac9', None)[newkey]
+            want = d.ConditionSignaled
+        else:
+            d = dc.AlertConditionDescriptorContainer(handle, 'as0')
+            d.Source = (['m0'], ['m1', 'm2'], [])[newkey]
+            want = list(d.Source)
+        d.set_source_mds('mds0')
+        d.DescriptorVersion = dv1
+        st = cm.data_model.get_state_class_for_descriptor(d)(d)
+        st.DescriptorVersion = dv1
+        part.ModificationType = (dmt.CREATE, dmt.UPDATE)[mod]
+        part.Descriptor.append(d)
+        part.State.append(st)
+        pre_mv = cm.mdib_version
+        try:
+            cm.process_incoming_description_modifications(MdibVersionGroup(mv1, k.SEQ, 1), rep)
+        except Exception:  # noqa: BLE001
+            orc.fail('description-report-makes-the-handler-fail')
+        orc.check(_indices_ok(cm), 'index!=scan')
+        with untraced():
+            now = cm.descriptions.handle.get_one(handle, allow_none=True)
+            got = None if now is None else (now.ConditionSignaled if which == 0 else list(now.Source))
+        orc.check(now is not None, 'descriptor-lost')
+        if now is not None and mv1 >= pre_mv and dv1 > dv0:
+            orc.check(got == want and now.DescriptorVersion == dv1, 'newer-descriptor-not-taken-over')
+        if now is not None and mv1 < pre_mv:
+            orc.check(now.DescriptorVersion == dv0, 'stale-description-report-applied')
+    except Exception as ex:  # noqa: BLE001
+        return exc_result(orc, ex)
+    return orc.result()
+
+
 def faulty_waveforms(mv0: int, sv0: int, mv1: int, sv1: int, mv2: int, sv2: int) -> str:
     """
     Two arbitrary WaveformStream notifications for one real-time sample array (any versions: in order, swapped, duplicates of
